@@ -235,7 +235,38 @@ func (b *refBuilder) newFile(dirOf string, node *model.Node, asDef string) *mode
 		b.modes["file.yaml"]++
 	}
 	name := fmt.Sprintf("ext%d", b.nfile)
-	if b.sameNames {
+	twin := false
+	if b.sameNames && !b.resExt {
+		// a twin: the same directory and base name as an earlier file, the other extension
+		// (limits.json next to limits.yaml are two documents)
+		for _, of := range b.files {
+			base := path.Base(of.RelPath)
+			stem := strings.TrimSuffix(strings.TrimSuffix(base, ".json"), ".yaml")
+			if (stem != "common" && stem != "shared") || (asDef == "" && len(of.Defs) == 0) {
+				continue
+			}
+			oext, oformat := ".yaml", model.YAML
+			if strings.HasSuffix(base, ".yaml") {
+				oext, oformat = ".json", model.JSON
+			}
+			cand := path.Join(path.Dir(of.RelPath), stem+oext)
+			free := true
+			for _, x := range b.files {
+				if x.RelPath == cand {
+					free = false
+				}
+			}
+			if free && rapid.Bool().Draw(b.t, "twinfile") {
+				dir, name, ext, format, twin = path.Dir(of.RelPath), stem, oext, oformat, true
+				if dir == "." {
+					dir = ""
+				}
+				b.modes["file.same_name_other_extension"]++
+				break
+			}
+		}
+	}
+	if b.sameNames && !twin {
 		// the same base name in several directories of one case (each reference must resolve
 		// relative to its own document)
 		for _, cand := range []string{"common", "shared"} {
@@ -250,10 +281,13 @@ func (b *refBuilder) newFile(dirOf string, node *model.Node, asDef string) *mode
 				}
 			}
 			for _, of := range b.files {
-				// whatever the extension: an extension-less reference must stay unambiguous
-				if strings.TrimSuffix(strings.TrimSuffix(of.RelPath, ".json"), ".yaml") == path.Join(dir, cand) {
+				// with extension-less references (--resolve-extension) whatever the extension: the
+				// reference must stay unambiguous; otherwise common.json and common.yaml may sit
+				// side by side and are two documents
+				if of.RelPath == path.Join(dir, cand+ext) || (b.resExt && strings.TrimSuffix(strings.TrimSuffix(of.RelPath, ".json"), ".yaml") == path.Join(dir, cand)) {
 					taken = true
 				}
+
 			}
 			if !taken {
 				name = cand
@@ -737,6 +771,16 @@ func TestC10(t *testing.T) {
 		rootType := progRoot
 		if rb.resExt {
 			rootType = "Prog"
+		}
+		// a third of the cases: documents that state their definitions under both container
+		// keywords, the legacy one with an out-of-date copy that no pointer names
+		if rapid.IntRange(0, 2).Draw(rt, "stalecopies") == 0 {
+			for _, rf := range rb.files {
+				if len(rf.Defs) > 0 && !rf.Spelling.LegacyDefs && rapid.Bool().Draw(rt, "stalehere") {
+					rf.Spelling.BothDefs, rf.Spelling.StaleLegacy = true, true
+					modes["defs.stale_legacy_copy"]++
+				}
+			}
 		}
 		inlineCase := caseOf(cfg, []string{S.RelPath}, S)
 		refCase := caseOf(cfg, []string{R.RelPath}, rb.files...)
